@@ -502,6 +502,9 @@ def split_rule(repo, rep):
 
 
 def run(repo, rep, tier):
+    rep.rule("R-C09-6", "every parameter of the functions behind this property is read (rule-based splits): none is accepted and then ignored")
+    from .shared import unused_parameters
+    unused_parameters(repo, rep, "R-C09-6", ("wavespectra.partition.partition.Partition", "wavespectra.specarray.SpecArray.split", "wavespectra.specarray.SpecArray.stats", "wavespectra.core.utils.waveage", "wavespectra.core.utils.is_overlap"), "rule-based splits")
     rep.rule("R-C09-1", "wave-age mask is exactly celerity(freq, dpt) <= agefac*wspd*cos(D2R*(dir - wdir)); ptm4 = mask / ~mask of one object")
     rep.rule("R-C09-2", "bbox: all-pairs overlap check raising ValueError before masking; closed 4-sided masks; complement remainder; "
                         "omitted limits default to min()/max() of the matching coordinate")
